@@ -46,7 +46,9 @@ type c06World struct {
 	outs  [][]string
 }
 
-func c06Test(i int) string { return fmt.Sprintf("TestT%d", i) }
+// c06Test: the names of the concurrently running tests are textual prefixes of each other (TestT, TestT1, TestT10) without
+// being parent and child: whatever one test does to its own registry entries must not reach the others'.
+func c06Test(i int) string { return []string{"TestT", "TestT1", "TestT10", "TestT100"}[i] }
 
 func c06Slots(cs c06Case) []c06Slot {
 	var out []c06Slot
